@@ -170,7 +170,7 @@ def program_strategy():
     return st.one_of(for_target('request', request_strategy(ids)), for_target('response', response_strategy(ids)))
 
 
-ERROR_CLS = ['JsonRpcError', 'JsonRpcError', 'PlainBase', 'IndepBase']
+ERROR_CLS = ['JsonRpcError', 'JsonRpcError', 'PlainBase', 'IndepBase', 'CodedBase']
 
 
 class C05(Check):
@@ -183,7 +183,7 @@ class C05(Check):
         "constructors from generated arguments (params none/list/tuple/dict incl. empty, ids over integers/strings/null, results and "
         "error data over nested JSON values incl. null, 4299-digit integers, floats, control and astral characters; errors of the base "
         "class, every built-in typed class, harness-registered classes, unregistered codes incl. 0 and negatives, empty messages; "
-        "batches of 0..5) x supplied error base class {JsonRpcError, plain subclass, documented get_error_cls override}. Oracle: a "
+        "batches of 0..5) x supplied error base class {JsonRpcError, plain subclass, subclass with a code of its own, documented get_error_cls override}. Oracle: a "
         "reference serialiser computes the expected wire dict from the constructor arguments; to_json, json.dumps(to_json()), "
         "json.dumps(obj, cls=pjrpc.JSONEncoder) and the server encoder must all give it; from_json(json.loads(text)) must give equal "
         "fields, the expected error class, and an identical second to_json. non-trivial = non-scalar payload, or an edge (null result, "
@@ -199,7 +199,7 @@ class C05(Check):
     ]
     trusted_base = ['reference serialiser in checks/c05.py', 'python json']
     required_classes = ['request', 'response/result', 'response/error', 'error', 'batch_request', 'batch_response', 'batch_error',
-                        'error_cls/PlainBase', 'error_cls/IndepBase', 'edge/null-result', 'edge/absent-data', 'edge/null-data',
+                        'error_cls/PlainBase', 'error_cls/IndepBase', 'error_cls/CodedBase', 'edge/null-result', 'edge/absent-data', 'edge/null-data',
                         'edge/empty-params', 'edge/code-0', 'edge/empty-message', 'batch_request/empty', 'batch_program/request', 'batch_program/response',
                         'batch_program/grown-after-serialisation', 'batch_program/not-strict']
 
@@ -226,6 +226,8 @@ class C05(Check):
             {'kind': 'error', 'error': {'cls': 'JsonRpcError', 'code': 1, 'message': '', 'data': {'absent': True}}, 'error_cls': 'PlainBase'},
             {'kind': 'error', 'error': {'cls': 'JsonRpcError', 'code': 2005, 'message': 'm', 'data': {'absent': True}}, 'error_cls': 'JsonRpcError'},
             {'kind': 'response', 'response': {'id': 1, 'error': {'cls': 'Custom2005', 'code': None, 'message': None, 'data': {'absent': True}}}, 'error_cls': 'PlainBase'},
+            {'kind': 'error', 'error': {'cls': 'JsonRpcError', 'code': 4242, 'message': 'm', 'data': {'absent': True}}, 'error_cls': 'CodedBase'},
+            {'kind': 'batch_response', 'responses': [{'id': 1, 'error': {'cls': 'JsonRpcError', 'code': 4242, 'message': 'm', 'data': {'value': 1}}}], 'error_cls': 'CodedBase'},
             {'kind': 'batch_request', 'requests': []},
             {'kind': 'batch_response', 'responses': [{'id': 1, 'error': {'cls': 'JsonRpcError', 'code': 12345, 'message': 'm', 'data': {'absent': True}}}], 'error_cls': 'PlainBase'},
             {'kind': 'batch_response', 'responses': [{'id': 1, 'error': {'cls': 'IndepA', 'code': None, 'message': None, 'data': {'absent': True}}}], 'error_cls': 'IndepBase'},
